@@ -56,24 +56,47 @@ fn run_eval(t: &mut Toks) -> Option<String> {
     let d = EnvDesc::parse(t)?; let e = t.expr()?;
     let env = RecEnv::new(d.build()?);
     let r = execute(&env, &e);
-    Some(format!("{} ; {}{}", show_res(&r), env.trace(), env.native_law(&d)))
+    let ans = format!("{} ; {}{}", show_res(&r), env.trace(), env.native_law(&d));
+    Some(format!("{}{}", ans, history_law(&d, &e)))
+}
+
+/// The binding in force is the LATEST one, under every spelling: execute once (anything the environment remembers is now warm), rebind /
+/// remove every variable under a different letter case while the caller still HOLDS the values it looked up, execute again, and compare with
+/// a fresh environment that only ever saw the final bindings.  "" when they agree.
+fn history_law(d: &EnvDesc, e: &slac::Expression) -> String {
+    if d.vars.is_empty() { return String::new(); }
+    let Some(mut env) = d.build() else { return String::new() };
+    let Some(mut fresh) = d.build() else { return String::new() };
+    let _ = execute(&env, e);
+    let held: Vec<_> = d.vars.iter().filter_map(|(n, _)| env.variable(n)).collect();
+    let swap = |n: &str| -> String { n.chars().map(|c| if c.is_lowercase() { c.to_uppercase().next().unwrap_or(c) } else { c.to_lowercase().next().unwrap_or(c) }).collect() };
+    for (i, (n, v)) in d.vars.iter().enumerate() {
+        let other = if swap(n).to_lowercase() == n.to_lowercase() { swap(n) } else { n.clone() };
+        for target in [&mut env, &mut fresh] {
+            match i % 3 { 0 => { target.remove_variable(&other); } 1 => { target.add_variable(&other, V::Array(vec![v.clone(), V::Number(i as f64)])); } _ => { target.add_variable(&other, V::String(format!("{}!", show(v)))); } }
+        }
+    }
+    let a = show_res(&execute(&env, e)); let b = show_res(&execute(&fresh, e));
+    drop(held);
+    if a == b { String::new() } else { format!(" ; HISTORY after rebinding: {} but an environment that was never read before the same rebinding: {}", a, b) }
 }
 
 /// `env <ops>`: one answer per op, joined by " , "
 fn run_env(t: &mut Toks) -> Option<String> {
     let mut env = StaticEnvironment::default();
     let mut out: Vec<String> = vec![];
+    let mut held: Vec<std::rc::Rc<V>> = vec![];          // a host may keep the values it looked up or removed
     while let Some(op) = t.next() {
         let ans = match op {
             "av" => { let n = t.name()?; let v = t.value()?; env.add_variable(&n, v); "-".to_string() }
-            "rv" => { let n = t.name()?; match env.remove_variable(&n) { Some(v) => format!("some {}", show(&v)), None => "none".into() } }
+            "rv" => { let n = t.name()?; match env.remove_variable(&n) { Some(v) => { held.push(v.clone()); format!("some {}", show(&v)) } None => "none".into() } }
             "cv" => { env.clear_variables(); "-".into() }
             "af" => { let d = parse_fn(t)?; env.add_function(mk_fn(&d)?); "-".into() }
             "afs" => { let k = t.usize()?; let mut fs = vec![]; for _ in 0..k { let d = parse_fn(t)?; fs.push(mk_fn(&d)?); } env.add_functions(fs); "-".into() }
             // extend_environment; the k function descriptions that follow tell the MODEL what the standard library registers (ignored here)
             "ext" => { let k = t.usize()?; for _ in 0..k { parse_fn(t)?; } slac::stdlib::extend_environment(&mut env); "-".to_string() }
             "rf" => { let n = t.name()?; match env.remove_function(&n) { Some(f) => format!("some {}", show_fn(&f)), None => "none".into() } }
-            "gv" => { let n = t.name()?; match env.variable(&n) { Some(v) => format!("some {}", show(&v)), None => "none".into() } }
+            "gv" => { let n = t.name()?; match env.variable(&n) { Some(v) => { held.push(v.clone()); format!("some {}", show(&v)) } None => "none".into() } }
             "ve" => { let n = t.name()?; tf(env.variable_exists(&n)).to_string() }
             "cl" => { let n = t.name()?; let k = t.usize()?; let mut args = vec![]; for _ in 0..k { args.push(t.value()?); } show_nres(&env.call(&n, &args)) }
             "fe" => { let n = t.name()?; let k = t.usize()?; show_fnres(&env.function_exists(&n, k)) }
@@ -82,6 +105,7 @@ fn run_env(t: &mut Toks) -> Option<String> {
         };
         out.push(ans);
     }
+    drop(held);
     Some(out.join(" , "))
 }
 pub fn show_fnres(r: &slac::environment::FunctionResult) -> String {
